@@ -152,6 +152,7 @@ func vObserveB(n string, b []byte)
 func vKnown(id string, c bool) bool
 func vYield(id string)
 func vGo(name string, f func())
+func vSeqPart(key, prefix string, idx int) uint64
 `
 
 type Loaded struct {
@@ -342,6 +343,9 @@ func runRoot(l *Loaded, spec *RootSpec, args []int, nSamples int) (res *RootResu
 	m := newMachine(l, spec, "z3")
 	defer func() {
 		if r := recover(); r != nil {
+			if os.Getenv("VERIF_PANIC") != "" {
+				panic(r)
+			}
 			res.Err = fmt.Sprintf("engine panic: %v", r)
 		}
 		m.ctx.solver.Close()
